@@ -253,6 +253,18 @@ class Gen:
                     out.append((fname, ('custom', 'CGameVersion', 8)))
                 elif p in ('binrw_parse_mal_allowed_mods', 'binrw_parse_ipb_bans') and w == p.replace('parse', 'write'):
                     if not re.fullmatch(r'\w+', br.get('args', '')): raise TranslateError(where + ' words args')
+                    # the helper pair reads / writes plain little-endian 32-bit words, one per element, nothing else
+                    src = s.files[st['file']]
+                    rb = norm_ws(find_block(src, r'fn %s\(count: u8\) -> BinResult<IndexSet<\w+>>\s*\{' % p))
+                    wb = norm_ws(find_block(src, r'fn %s\(input: &IndexSet<\w+>\) -> BinResult<\(\)>\s*\{' % w))
+                    WORD_READERS = {
+                        'let mut data = IndexSet::new(); for _i in 0..count { let _ = data.insert(Vehicle::Mod(u32::read_options(reader, endian, ())?)); } Ok(data)',
+                        'let mut data = IndexSet::new(); for _i in 0..count { let ip = Ipv4Addr::from(u32::read_options(reader, endian, ())?); let _ = data.insert(ip); } Ok(data)'}
+                    WORD_WRITERS = {
+                        'for i in input.iter() { match i { Vehicle::Mod(val) => val.write_options(writer, endian, ())?, _ => { unreachable!( "Non-Mod vehicle managed to get into the HashSet. Should not be possible." ) }, } } Ok(())',
+                        'for i in input.iter() { u32::from(*i).write_options(writer, endian, ())?; } Ok(())'}
+                    if rb not in WORD_READERS: raise TranslateError(where + ' word-list reader changed: ' + rb[:200])
+                    if wb not in WORD_WRITERS: raise TranslateError(where + ' word-list writer changed: ' + wb[:200])
                     tail = ('words', fname, br['args'])
                 else:
                     raise TranslateError('%s: parse_with=%r write_with=%r' % (where, p, w))
